@@ -192,13 +192,14 @@ void vs_sim_begin(uint64_t seed, int nthreads, int policy, int pct_depth,
   g_policy = policy;
   g_budget = step_budget;
   g_step = 0; g_switches = 0; g_last = -1;
+  g_preempts_fired = 0; g_stalls_fired = 0; g_guard_contentions = 0; g_guard_max_nest = 0;
   g_events.clear(); g_events.reserve(4096);
   memset(g_reason_count, 0, sizeof g_reason_count);
   for (int t = 0; t < MAXT; ++t) {
     g_state[t].store(t < nthreads ? S_NEW : S_NONE);
     g_go[t].store(0);
     g_stall[t] = 0; g_blocked_on[t] = nullptr;
-    g_entries[t] = 0; g_pre[t].clear(); g_pre_i[t] = 0;
+    g_entries[t] = 0; g_pre[t].clear(); g_pre[t].reserve(64); g_pre_i[t] = 0;
   }
   // PCT: random distinct priorities, change points in [0, est_steps)
   std::vector<int> perm(nthreads);
@@ -504,6 +505,7 @@ void __wrap___cxa_guard_abort(void* g) {
 // static-region watch
 // ===========================================================================
 int vs_statics_init(void) {
+  if (!g_statics.empty() || !g_guards.empty()) return (int)g_statics.size();   // idempotent
   dl_iterate_phdr(phdr_cb, nullptr);
   int fd = open("/proc/self/exe", O_RDONLY);
   if (fd < 0) return -1;
@@ -627,6 +629,41 @@ void vs_dump_statics(FILE* f) {
     fprintf(f, "ST %016llx %zu %s\n", (unsigned long long)vsim::fnv_bytes((const void*)o.addr, o.size),
             o.size, o.name.c_str());
   }
+}
+
+// ===========================================================================
+// raw memory helpers
+// ===========================================================================
+void vs_mem_copy(void* dst, const void* src, unsigned long n) {
+  volatile unsigned char* d = (volatile unsigned char*)dst; const volatile unsigned char* s = (const volatile unsigned char*)src;
+  for (unsigned long i = 0; i < n; ++i) d[i] = s[i];
+}
+long vs_mem_diff(const void* a, const void* b, unsigned long n, long skip_lo, long skip_hi) {
+  const volatile unsigned char* x = (const volatile unsigned char*)a; const volatile unsigned char* y = (const volatile unsigned char*)b;
+  for (unsigned long i = 0; i < n; ++i) {
+    if ((long)i >= skip_lo && (long)i < skip_hi) continue;
+    if (x[i] != y[i]) return (long)i;
+  }
+  return -1;
+}
+uint64_t vs_mem_hash(const void* p, unsigned long n) {
+  const volatile unsigned char* c = (const volatile unsigned char*)p;
+  uint64_t h = 1469598103934665603ull;
+  for (unsigned long i = 0; i < n; ++i) { h ^= c[i]; h *= 1099511628211ull; }
+  return h;
+}
+static long g_busy[32][2]; static int g_nbusy = 0; static volatile int g_flag = 0;
+void vs_busy_clear(void) { g_nbusy = 0; }
+void vs_busy_add(long lo, long hi) { if (g_nbusy < 32) { g_busy[g_nbusy][0] = lo; g_busy[g_nbusy][1] = hi; ++g_nbusy; } }
+int vs_busy_test(long off) { for (int i = 0; i < g_nbusy; ++i) if (off >= g_busy[i][0] && off < g_busy[i][1]) return 1; return 0; }
+void vs_flag_set(int v) { g_flag = v; }
+int vs_flag_get(void) { return g_flag; }
+void vs_preempt_in(uint64_t n) {
+  const int t = tl_tid;
+  if (t < 0) return;
+  g_pre[t].clear();   // no allocation: capacity reserved in vs_sim_begin
+  g_pre[t].push_back(g_entries[t] + n);
+  g_pre_i[t] = 0;
 }
 
 // ===========================================================================
